@@ -13,6 +13,11 @@
     un N S           unset
     sp [p…]          set the positional parameters
     ee N V           extend_env([(N, V)])
+    sq N S Q         get_or_new + set_quirk(Q)   Q = L (Some(LineNumber)) | - (None)
+    init             VariableSet::init
+    xp N LOC         Variable::expand of the visible variable at LOC = LINE:START:<hex text>[@LOC]
+                     (`@LOC`: the code is the result of an alias substitution at LOC)
+  After the last operation the contexts still pushed are popped one by one (`r=unwind`).
 -/
 import YashModel.Common.Proto
 import YashModel.Variable.Model
@@ -49,10 +54,12 @@ def parseOp (t : String) : Option Op :=
   | ["ro", n, s, l] => do pure (.readonly (← decStr n) (← parseScope s) (← l.toNat?))
   | ["un", n, s] => do pure (.unset (← decStr n) (← parseScope s))
   | "sp" :: ps => do pure (.setParams (← ps.mapM decStr))
+  | ["sq", n, s, "L"] => do pure (.quirk (← decStr n) (← parseScope s) (some .lineNumber))
+  | ["sq", n, s, "-"] => do pure (.quirk (← decStr n) (← parseScope s) none)
   | _ => none
 
 def opName : Op → Option Name
-  | .getOrNew n _ | .assign n _ _ _ | .export n _ _ | .readonly n _ _ | .unset n _ => some n
+  | .getOrNew n _ | .assign n _ _ _ | .export n _ _ | .readonly n _ _ | .unset n _ | .quirk n _ _ => some n
   | _ => none
 
 def insertSorted (a : String) : List String → List String
@@ -64,22 +71,42 @@ def namesOf (ops : List Op) : List Name :=
   let hs := (ops.filterMap opName).foldl (fun acc n => insertSorted (encStr n) acc) []
   hs.filterMap decStr
 
-/-- an operation of the case language: an `Op`, or `ee N V` (`extend_env` of one pair) -/
-def parseItem (t : String) : Option (Op ⊕ (Name × String)) :=
-  match words t with
-  | ["ee", n, v] => do pure (.inr (← decStr n, ← decStr v))
-  | _ => (parseOp t).map .inl
+def parseSeg (t : String) : Option (Nat × String × Nat) :=
+  match t.splitOn ":" with
+  | [l, st, x] => do pure (← l.toNat?, ← decStr x, ← st.toNat?)
+  | _ => none
 
-def itemName : Op ⊕ (Name × String) → Option Name
-  | .inl op => opName op
-  | .inr (n, _) => some n
+/-- `SEG[@SEG…]`: the first segment is the location itself, each following one the location of the
+    word whose alias substitution produced the code before it -/
+def parseLocSegs : List String → Option Loc
+  | [] => none
+  | [t] => do
+    let (l, x, st) ← parseSeg t
+    pure (.plain l x st)
+  | t :: rest => do
+    let (l, x, st) ← parseSeg t
+    pure (.alias l x st (← parseLocSegs rest))
+
+/-- an item of the case language -/
+def parseItem (t : String) : Option Item :=
+  match words t with
+  | ["ee", n, v] => do pure (.ee (← decStr n) (← decStr v))
+  | ["init"] => some .init
+  | ["xp", n, l] => do pure (.xp (← decStr n) (← parseLocSegs (l.splitOn "@")))
+  | _ => (parseOp t).map .op
+
+def itemNames : Item → List Name
+  | .op op => (opName op).toList
+  | .ee n _ => [n]
+  | .init => initNames
+  | .xp n _ => [n]
 
 def runHistory (line : String) : String :=
   let parts := (splitTrim line ";").filter (· ≠ "")
   match parts.mapM parseItem with
   | none => "bad-case\t-"
   | some items =>
-    let hs := (items.filterMap itemName).foldl (fun acc n => insertSorted (encStr n) acc) []
+    let hs := (items.flatMap itemNames).foldl (fun acc n => insertSorted (encStr n) acc) []
     let names := hs.filterMap decStr
     let (om, os) := historyGo names VariableSet.new SSet.new items [] []
     " | ".intercalate om ++ "\t=" ++ " | ".intercalate os
